@@ -806,3 +806,610 @@ def rule_exact(ctx, floor=7):
     _, ctl2, _ = exact_analysis(strip_c_comments(EXACT_CONTROL.replace('PyUnicode_Check(key)', 'PyUnicode_CheckExact(key)')), 'control')
     r.positive_control([k for k, _, _ in ctl] == ['control:parse:match[key]'] and not ctl2, 'dispatch on PyUnicode_Check sends str subclasses to the memcmp matcher')
     return r
+
+
+# ======================================================================================= C24-IDX (fourth round)
+"""C24-IDX — the index space of values[] and of the keyword-name table.
+
+The generated wrapper passes the NULL-terminated table `argnames` (one `PyObject **` per parameter that can be given by keyword) and the
+array `values`, which is parallel to it: values[i] belongs to argnames[i].  `num_pos_args` of them were filled positionally, so
+   * a keyword is looked up in [argnames + num_pos_args, NULL)        (scan loops `while (*cursor ...)`),
+   * a duplicate of a positional argument in [argnames, argnames + num_pos_args)   (scan loops `while (cursor != end)`),
+   * and the slot of a hit is `cursor - argnames` — stored into values[...] directly or returned through *index_found.
+The rule evaluates every table pointer of the functions of FunctionArguments.c::ParseKeywords* as a linear form `argnames + k*num_pos_args`
+(parameters of the helper functions are bound at their call sites, transitively, to the two parameters of the entry point __Pyx_ParseKeywords)
+and demands: every pointer difference `cursor - X` has X == argnames + 0; every sentinel scan starts at argnames + num_pos_args; every bounded
+scan runs from argnames + 0 to argnames + num_pos_args.  Seed C24c computed the index relative to first_kw_arg in one of four sibling sites."""
+TABLE_PTR = re.compile(r'PyObject\s*\*\s*\*\s*const')
+
+
+def _kw_functions(ctx):
+    out = {}
+    for n, ds in ctx.cat.decls.items():
+        for d in ds:
+            if d.file == 'FunctionArguments.c' and d.kind == 'func' and d.body and 'ParseKeywords' in str(d.section):
+                out[n] = d
+    return out
+
+
+def _lin_add(a, b):
+    if a is None or b is None:
+        return None
+    if a[0] and b[0]:
+        return None
+    off = dict(a[1])
+    for k, v in b[1]:
+        off[k] = off.get(k, 0) + v
+    return (a[0] or b[0], tuple(sorted((k, v) for k, v in off.items() if v)))
+
+
+def _show_form(f):
+    if f is None:
+        return 'an unknown pointer'
+    s = 'argnames' if f[0] else ''
+    for k, v in f[1]:
+        s += (' + ' if s else '') + ('%s' % k if v == 1 else '%d*%s' % (v, k))
+    return s or '0'
+
+
+class KwForms:
+    """linear forms of the table pointers / counters of the keyword parser, interprocedural over the call graph of the section"""
+
+    def __init__(self, funcs):
+        self.funcs = funcs
+        self.body = {n: '\n'.join(l for l in strip_c_comments(d.body).split('\n') if not l.lstrip().startswith('#')) for n, d in funcs.items()}
+        self.params = {n: [(p, _pname_c(p)) for p in d.params] for n, d in funcs.items()}
+        called = set()
+        self.calls = {}          # callee -> [(caller, [arg texts])]
+        for n, b in self.body.items():
+            for m in re.finditer(r'\b(__Pyx_\w+)\s*\(', b):
+                c = m.group(1)
+                if c in funcs and c != n:
+                    rp = match_paren(b, m.end() - 1)
+                    if rp < 0:
+                        continue
+                    self.calls.setdefault(c, []).append((n, [a.strip() for a in split_args(b[m.end():rp])]))
+                    called.add(c)
+        self.entries = [n for n in funcs if n not in called]
+        self.memo = {}
+
+    def local_defs(self, fn, name):
+        """right-hand sides assigned to a local pointer (declaration initialiser or plain assignment)"""
+        b = self.body[fn]
+        return [m.group(1).strip() for m in re.finditer(r'(?<![\w>.])%s\s*=(?!=)\s*([^;]+);' % re.escape(name), b)]
+
+    def form(self, fn, expr, depth=0):
+        """linear form (has table base?, ((symbol, coefficient), ...)) of a pointer/integer expression inside fn, or None"""
+        if depth > 8:
+            return None
+        e = expr.strip()
+        while e.startswith('(') and match_paren(e, 0) == len(e) - 1:
+            e = e[1:-1].strip()
+        if re.fullmatch(r'\d+', e):
+            return (False, ()) if int(e) == 0 else (False, (('1', int(e)),))
+        m = re.fullmatch(r'(.+?)\s*\+\s*([A-Za-z_]\w*|\d+)', e, re.S)
+        if m and '(' not in m.group(1).replace('(', '', 0)[:0]:
+            return _lin_add(self.form(fn, m.group(1), depth + 1), self.form(fn, m.group(2), depth + 1))
+        if not re.fullmatch(r'[A-Za-z_]\w*', e):
+            return None
+        key = (fn, e)
+        if key in self.memo:
+            return self.memo[key]
+        self.memo[key] = None       # cycle guard
+        res = None
+        pnames = [n for _, n in self.params[fn]]
+        if e in pnames:
+            i = pnames.index(e)
+            ptype = self.params[fn][i][0]
+            if fn in self.entries:
+                res = (True, ()) if TABLE_PTR.search(ptype) else (False, ((e, 1),))
+            else:
+                forms = set()
+                for caller, args in self.calls.get(fn, []):
+                    forms.add(self.form(caller, args[i], depth + 1) if i < len(args) else None)
+                res = forms.pop() if len(forms) == 1 else None
+        else:
+            defs = self.local_defs(fn, e)
+            forms = {self.form(fn, d, depth + 1) for d in defs}
+            res = forms.pop() if len(forms) == 1 else None
+        self.memo[key] = res
+        return res
+
+
+def _pname_c(p):
+    m = re.search(r'([A-Za-z_]\w*)\s*(?:\[[^\]]*\])?\s*$', p)
+    return m.group(1) if m else None
+
+
+def idx_sites(kf):
+    """-> [(function, kind, detail text, forms...)] for pointer differences and scan loops over table cursors"""
+    sites = []
+    for fn, b in sorted(kf.body.items()):
+        ptr_locals = set(re.findall(r'PyObject\s*\*\s*\*\s*const\s*\*\s*([A-Za-z_]\w*)', b)) | {n for p, n in kf.params[fn] if TABLE_PTR.search(p)}
+        cursors = {v for v in ptr_locals if re.search(r'(?<![\w>.])%s\s*\+\+|\+\+\s*%s\b' % (v, v), b)}
+        for m in re.finditer(r'\b([A-Za-z_]\w*)\s*-\s*([A-Za-z_]\w*)\b', b):
+            if m.group(1) in cursors and (m.group(2) in ptr_locals):
+                sites.append((fn, 'diff', '%s - %s' % (m.group(1), m.group(2)), kf.form(fn, m.group(2))))
+        # scans: the latest assignment of the cursor before each while loop whose condition mentions it
+        events = []
+        for c in cursors:
+            for m in re.finditer(r'(?<![\w>.])%s\s*=(?!=)\s*([^;]+);' % re.escape(c), b):
+                events.append((m.start(), 'set', c, m.group(1).strip()))
+        for m in re.finditer(r'\bwhile\s*\(', b):
+            rp = match_paren(b, m.end() - 1)
+            events.append((m.start(), 'while', None, b[m.end():rp]))
+        last = {}
+        for pos, kind, c, text in sorted(events):
+            if kind == 'set':
+                last[c] = text
+                continue
+            for c in cursors:
+                if not re.search(r'\b%s\b' % re.escape(c), text):
+                    continue
+                start = kf.form(fn, last[c]) if c in last else None
+                mb = re.search(r'\b%s\s*!=\s*([A-Za-z_]\w*)|([A-Za-z_]\w*)\s*!=\s*%s\b' % (re.escape(c), re.escape(c)), text)
+                if mb and (mb.group(1) or mb.group(2)) in ptr_locals:
+                    end = mb.group(1) or mb.group(2)
+                    sites.append((fn, 'bounded', 'while (%s != %s) from %s' % (c, end, last.get(c)), start, kf.form(fn, end)))
+                elif re.search(r'\*\s*%s\b' % re.escape(c), text):
+                    sites.append((fn, 'sentinel', 'while (*%s ...) from %s' % (c, last.get(c)), start))
+    return sites
+
+
+IDX_CONTROL = {
+    '__Pyx_ParseKeywords': ('PyObject *kwds', 'PyObject ** const argnames[]', 'PyObject *values[]', 'Py_ssize_t num_pos_args'),
+    '__Pyx_Match': ('PyObject *key', 'PyObject ** const argnames[]', 'PyObject ** const *first_kw_arg', 'size_t *index_found'),
+}
+
+
+def rule_idx(ctx, floor=11):
+    r = Rule('C24-IDX', 'keyword parser of FunctionArguments.c: every table pointer is a linear form of the entry point\'s (argnames, num_pos_args); a hit\'s slot is `cursor - argnames` '
+             '(values[] is parallel to argnames), keyword lookups scan from argnames + num_pos_args, duplicate-of-positional checks scan [argnames, argnames + num_pos_args)', floor)
+    funcs = _kw_functions(ctx)
+    if '__Pyx_ParseKeywords' not in funcs:
+        raise AnalysisError('FunctionArguments.c::ParseKeywords: __Pyx_ParseKeywords vanished')
+    kf = KwForms(funcs)
+    if kf.entries != ['__Pyx_ParseKeywords']:
+        raise AnalysisError('keyword parser: expected the single entry point __Pyx_ParseKeywords, found %s' % kf.entries)
+    ints = [n for p, n in kf.params['__Pyx_ParseKeywords'] if re.search(r'Py_ssize_t\s+\w+$', p.strip())]
+    # the counter that offsets the search: the integer parameter added to the table base somewhere
+    offs = set()
+    for fn, b in kf.body.items():
+        for v in re.findall(r'PyObject\s*\*\s*\*\s*const\s*\*\s*([A-Za-z_]\w*)\s*=', b):
+            f = kf.form(fn, v)
+            if f and f[0] and len(f[1]) == 1 and f[1][0][1] == 1:
+                offs.add(f[1][0][0])
+    if len(offs) != 1:
+        raise AnalysisError('keyword parser: cannot identify the "number of positionally passed arguments" offset (candidates: %s)' % sorted(offs))
+    N = offs.pop()
+    BASE, FIRST = (True, ()), (True, ((N, 1),))
+    rel = 'Cython/Utility/FunctionArguments.c'
+    seen = {}
+    for site in idx_sites(kf):
+        fn, kind, text = site[:3]
+        key = 'FunctionArguments.c:%s:%s:%s' % (fn, kind, ' '.join(text.split()))
+        d = funcs[fn]
+        if key in seen:
+            continue
+        seen[key] = 1
+        r.inst(key, sample='%s: %s' % (key, ', '.join(_show_form(f) for f in site[3:])))
+        if kind == 'diff' and site[3] != BASE:
+            r.violate('FunctionArguments.c:%s:index-base' % fn, rel, d.line, '%s computes a values[] slot as `%s`, i.e. relative to %s; values[] is parallel to argnames, so the keyword value is stored %s '
+                      '(the value is bound to the wrong parameter, silently)' % (fn, text, _show_form(site[3]), 'num_pos_args slots too far left' if site[3] == FIRST else 'into an unrelated slot'))
+        if kind == 'sentinel' and site[3] != FIRST:
+            r.violate('FunctionArguments.c:%s:keyword-scan-start' % fn, rel, d.line, '%s looks a keyword up with `%s`, starting at %s instead of argnames + %s: %s' % (
+                fn, text, _show_form(site[3]), N, 'a keyword naming an argument that was already passed positionally is accepted and overwrites it (CPython: TypeError "multiple values")'
+                if site[3] == BASE else 'the declared keyword parameters are not all searched'))
+        if kind == 'bounded' and (site[3] != BASE or site[4] != FIRST):
+            r.violate('FunctionArguments.c:%s:positional-scan-range' % fn, rel, d.line, '%s checks for duplicates of positional arguments with `%s`, i.e. over [%s, %s) instead of [argnames, argnames + %s): '
+                      'a keyword that repeats a positional argument is not reported as "multiple values"' % (fn, text, _show_form(site[3]), _show_form(site[4]), N))
+    # positive control: seed C24c shape
+    class D:
+        def __init__(self, params, body):
+            self.params, self.body, self.file, self.line = list(params), body, 'FunctionArguments.c', 1
+    cf = {'__Pyx_ParseKeywords': D(IDX_CONTROL['__Pyx_ParseKeywords'], '{ PyObject** const *first_kw_arg = argnames + num_pos_args; size_t i; return __Pyx_Match(kwds, argnames, first_kw_arg, &i); }'),
+          '__Pyx_Match': D(IDX_CONTROL['__Pyx_Match'], '{ PyObject ** const *name; name = first_kw_arg; while (*name) { if (**name == key) { *index_found = (size_t)(name - first_kw_arg); return 1; } name++; } return 0; }')}
+    ck = KwForms(cf)
+    bad = [s for s in idx_sites(ck) if s[1] == 'diff' and s[3] != (True, ())]
+    r.positive_control(bool(bad), 'index computed relative to first_kw_arg')
+    return r
+
+
+# ======================================================================================= C24-POSONLY
+"""C24-POSONLY — the offset between values[] indices and keyword-table indices.
+
+The keyword-name table is built from `[arg for arg in all_args if not arg.pos_only]`; values[] has one slot per element of all_args.  Hence
+table index = values index - |{a in all_args : a.pos_only}|, and that count is what must be subtracted from nargs, added to `values`, and
+subtracted inside `pykwdlist[i - K]`.  The rule resolves every counter (a local initialised to 0 and incremented in a loop over the arguments, or
+a parameter bound to such a local at the self.method(...) call site) to the set of conditions its increment is nested in, minus the conditions
+under which the same loop appends the argument to the list all_args is made of, and demands that this set is exactly {arg.pos_only}."""
+
+
+def _counters(fn):
+    """{name: [(frozenset of (condition text, truth) around `name += 1`, loop iter text, lineno)]} and appends {list name: conditions}"""
+    out, appends = {}, {}
+
+    def walk(stmts, conds, loop):
+        for st in stmts:
+            if isinstance(st, ast.For):
+                walk(st.body, conds, (ast.unparse(st.iter), st.target.id if isinstance(st.target, ast.Name) else None))
+                walk(st.orelse, conds, loop)
+            elif isinstance(st, ast.If):
+                t = st.test
+                # `if not c: continue` guards the rest of the loop body
+                pos = _atoms(t, True)
+                walk(st.body, conds | pos, loop)
+                walk(st.orelse, conds | _atoms(t, False), loop)
+                if st.body and isinstance(st.body[-1], ast.Continue) and not st.orelse:
+                    conds = conds | _atoms(t, False)
+            elif isinstance(st, ast.AugAssign) and isinstance(st.op, ast.Add) and isinstance(st.target, ast.Name) \
+                    and isinstance(st.value, ast.Constant) and st.value.value == 1 and loop is not None:
+                out.setdefault(st.target.id, []).append((frozenset(conds), loop, st.lineno))
+            elif isinstance(st, ast.Expr) and isinstance(st.value, ast.Call) and isinstance(st.value.func, ast.Attribute) and st.value.func.attr == 'append' and loop is not None:
+                tgt = st.value.func.value
+                names = [tgt.id] if isinstance(tgt, ast.Name) else [x.id for x in ast.walk(tgt) if isinstance(x, ast.Name)]
+                for nm in names:
+                    appends.setdefault(nm, []).append(frozenset(conds))
+            elif isinstance(st, (ast.With, ast.Try, ast.While)):
+                for fld in ('body', 'orelse', 'finalbody'):
+                    walk(getattr(st, fld, []) or [], conds, loop)
+    walk(fn.body, frozenset(), None)
+    return out, appends
+
+
+def _atoms(test, truth):
+    """conjunctive atoms known when `test` has the given truth value: {(text, bool)}"""
+    if isinstance(test, ast.UnaryOp) and isinstance(test.op, ast.Not):
+        return _atoms(test.operand, not truth)
+    if isinstance(test, ast.BoolOp):
+        if (isinstance(test.op, ast.And) and truth) or (isinstance(test.op, ast.Or) and not truth):
+            out = frozenset()
+            for v in test.values:
+                out |= _atoms(v, truth)
+            return out
+        return frozenset({(ast.unparse(test), truth)})
+    return frozenset({(ast.unparse(test), truth)})
+
+
+def counter_class(cls, fn, name, ix, depth=0):
+    """the extra conditions of a counter: -> (frozenset of (attribute of the loop variable, truth), description) or None when `name` is not a counter"""
+    ctrs, appends = _counters(fn)
+    if name in ctrs:
+        incs = ctrs[name]
+        res = set()
+        for conds, (it, var), line in incs:
+            # conditions under which the same loop files the argument into a list: membership conditions of the argument lists, not part of the count's meaning
+            member = None
+            for lst, cl in appends.items():
+                for c in cl:
+                    if c <= conds:
+                        member = c if member is None or len(c) > len(member) else member
+            extra = conds - (member or frozenset())
+            norm = set()
+            for text, truth in extra:
+                m = re.fullmatch(r'%s\.(\w+)' % re.escape(var or 'arg'), text)
+                norm.add((m.group(1) if m else text, truth))
+            res.add(frozenset(norm))
+        return res, '%s.%s:%s' % (cls.name, fn.name, name)
+    # a plain alias of another local: `k = n`
+    al = [n.value for n in walk_no_nested(fn) if isinstance(n, ast.Assign) and any(isinstance(t, ast.Name) and t.id == name for t in n.targets)]
+    if len(al) == 1 and isinstance(al[0], ast.Name) and depth < 3:
+        return counter_class(cls, fn, al[0].id, ix, depth + 1)
+    params = [a.arg for a in fn.args.args]
+    if name in params and depth < 3:
+        i = params.index(name) - 1
+        res, desc = set(), None
+        for other in cls.methods.values():
+            for n in walk_no_nested(other):
+                if isinstance(n, ast.Call) and isinstance(n.func, ast.Attribute) and n.func.attr == fn.name and isinstance(n.func.value, ast.Name) and n.func.value.id == 'self':
+                    arg = None
+                    if 0 <= i < len(n.args):
+                        arg = n.args[i]
+                    for k in n.keywords:
+                        if k.arg == name:
+                            arg = k.value
+                    if isinstance(arg, ast.Name):
+                        sub = counter_class(cls, other, arg.id, ix, depth + 1)
+                        if sub is None:
+                            return None
+                        res |= sub[0]
+                        desc = sub[1]
+                    else:
+                        return None
+        return (res, desc) if res else None
+    return None
+
+
+def rule_posonly(ctx, floor=3):
+    ix = ctx.index
+    r = Rule('C24-POSONLY', 'DefNodeWrapper: every counter that offsets values[] indices against the keyword-name table (nargs - K, values + K, pykwdlist[i - K]) counts exactly the '
+             'positional-only parameters — the complement of the `not arg.pos_only` filter the table is built with', floor)
+    c = ix.cls('Nodes', 'DefNodeWrapper')
+    if c is None:
+        raise AnalysisError('Nodes.DefNodeWrapper vanished')
+    WANT = frozenset({('pos_only', True)})
+    n_sites = 0
+    table_filter = None
+    for fname, fn in c.methods.items():
+        src = ast.unparse(fn)
+        emits_parse = '__Pyx_ParseKeywords(' in src
+        uses_table = 'pykwdlist_cname' in src
+        if not (emits_parse or uses_table):
+            continue
+        # (a) the filter of the name table
+        for n in walk_no_nested(fn):
+            if isinstance(n, ast.ListComp) and len(n.generators) == 1 and n.generators[0].ifs and isinstance(n.elt, ast.Name):
+                g = n.generators[0]
+                conds = frozenset()
+                for t in g.ifs:
+                    conds |= _atoms(t, True)
+                norm = frozenset((re.sub(r'^%s\.' % re.escape(g.target.id if isinstance(g.target, ast.Name) else 'arg'), '', t), v) for t, v in conds)
+                if any(t == 'pos_only' for t, v in norm):
+                    table_filter = (norm, ast.unparse(g.iter), n.lineno, fname)
+        # (b) counters used in arithmetic / emitted text of this function
+        used = set()
+        for n in walk_no_nested(fn):
+            if isinstance(n, ast.FormattedValue):
+                for x in ast.walk(n.value):
+                    if isinstance(x, ast.Name):
+                        used.add((x.id, n.lineno))
+            elif isinstance(n, ast.BinOp) and isinstance(n.op, (ast.Mod, ast.Sub, ast.Add)):
+                ops = n.right.elts if (isinstance(n.op, ast.Mod) and isinstance(n.right, ast.Tuple)) else [n.right, n.left] if not isinstance(n.op, ast.Mod) else [n.right]
+                for o in ops:
+                    if isinstance(o, ast.Name):
+                        used.add((o.id, n.lineno))
+        done = set()
+        for name, line in sorted(used):
+            if name in done:
+                continue
+            cc = counter_class(c, fn, name, ix)
+            if cc is None:
+                continue
+            done.add(name)
+            # only counters that talk about pos_only at all are offsets between the two index spaces
+            classes, desc = cc
+            if not any(any(t == 'pos_only' for t, v in k) for k in classes):
+                continue
+            if not emits_parse and not re.search(r'pykwdlist_cname\}\[[^\]]*\{%s\}' % re.escape(name), src.replace(' ', '')) and not re.search(r'pykwdlist_cname[^\n]*%s' % re.escape(name), src):
+                continue
+            key = 'Nodes.DefNodeWrapper.%s:offset:%s' % (fname, name)
+            n_sites += 1
+            r.inst(key, sample='%s counts %s (from %s)' % (key, sorted(map(sorted, classes)), desc))
+            bad = [k for k in classes if k != WANT]
+            if bad:
+                extra = sorted('%s%s' % ('' if v else 'not ', t) for t, v in bad[0] if (t, v) not in WANT)
+                r.violate(key, c.module.rel, line, '%s uses `%s` (%s) to translate between values[] indices and keyword-table indices, but it counts only the arguments with %s; the table drops every '
+                          'positional-only parameter (`if not arg.pos_only`), so for a signature where the two counts differ keyword values are stored into the wrong parameter / '
+                          'bogus "multiple values" errors are raised' % (fname, name, desc, ' and '.join(['pos_only'] + extra)))
+    if table_filter is None:
+        raise AnalysisError('DefNodeWrapper: the list comprehension that filters the keyword-name table by pos_only was not found')
+    key = 'Nodes.DefNodeWrapper.%s:name-table-filter' % table_filter[3]
+    r.inst(key, sample='%s: %s over %s' % (key, sorted(table_filter[0]), table_filter[1]))
+    if table_filter[0] != frozenset({('pos_only', False)}):
+        r.violate(key, c.module.rel, table_filter[2], 'the keyword-name table is filtered by %s instead of `not arg.pos_only`: the offsets (number of positional-only parameters) no longer describe the '
+                  'distance between a values[] index and its table index' % sorted(table_filter[0]))
+    if not n_sites:
+        raise AnalysisError('DefNodeWrapper: no positional-only offset counter found in the functions emitting __Pyx_ParseKeywords / indexing the name table')
+    pc = ast.parse("class W:\n def a(self, args, code):\n  n = m = 0\n  lst = []\n  for arg in args:\n   if arg.kw_only:\n    continue\n   lst.append(arg)\n   if arg.pos_only:\n    n += 1\n    if not arg.default:\n     m += 1\n  self.b(m, code)\n"
+                   " def b(self, k, code):\n  code.putln(f'__Pyx_ParseKeywords(values + {k})')\n").body[0]
+
+    class FC:
+        name = 'W'
+        methods = {f.name: f for f in pc.body}
+    cc = counter_class(FC, FC.methods['b'], 'k', None)
+    r.positive_control(cc is not None and any(k != WANT for k in cc[0]), 'offset bound to a counter of the required positional-only parameters')
+    return r
+
+
+# ======================================================================================= C24-KWSTR / C24-VCSELF
+def rule_kwstr(ctx, floor=1):
+    """**kwargs-only signatures: the keyword names are checked to be strings before they are turned into the dict"""
+    ix = ctx.index
+    r = Rule('C24-KWSTR', 'DefNodeWrapper: on every path that emits __Pyx_KwargsAsDict_<variant>(...) (keywords collected into **kwargs without the name table) '
+             '__Pyx_CheckKeywordStrings has been emitted before: non-str keyword names raise TypeError as in CPython', floor)
+    c = ix.cls('Nodes', 'DefNodeWrapper')
+    n = 0
+    for fname, fn in (c.methods.items() if c else ()):
+        if '__Pyx_KwargsAsDict_' not in ast.unparse(fn):
+            continue
+        bad = []
+
+        def tr(node, state):
+            s = set(state)
+            if not isinstance(getattr(node, 'body', None), list):
+                for x in ast.walk(node):
+                    if isinstance(x, ast.Constant) and isinstance(x.value, str):
+                        if '__Pyx_CheckKeywordStrings(' in x.value:
+                            s.add('CHK')
+                        if '__Pyx_KwargsAsDict_' in x.value and 'CHK' not in s:
+                            bad.append(x.lineno)
+            return frozenset(s)
+        pyflow.Flow(tr).run(fn)
+        key = 'Nodes.DefNodeWrapper.%s:KwargsAsDict' % fname
+        n += 1
+        r.inst(key, sample=key)
+        if bad:
+            r.violate(key, c.module.rel, bad[0], '%s emits __Pyx_KwargsAsDict_* on a path where __Pyx_CheckKeywordStrings was not emitted first: f(**{1: 2}) fills **kwargs with a non-str key instead of raising TypeError' % fname)
+    if not n:
+        raise AnalysisError('DefNodeWrapper no longer emits __Pyx_KwargsAsDict_*')
+    return r
+
+
+def rule_vcself(ctx, floor=4):
+    """C call paths of CythonFunction.c: taking the first argument as `self` goes together with dropping it from the arguments"""
+    r = Rule('C24-VCSELF', 'CythonFunction.c call paths: a function that takes `self` out of the argument vector/tuple (self = args[0] / PyTuple_GetItem(args, 0)) passes on the remaining '
+             'arguments only (args += 1 and nargs -= 1 in the same branch; tuple slice starting at 1): self is not bound a second time as the first positional argument', floor)
+    rel = 'Cython/Utility/CythonFunction.c'
+    n = 0
+    for name, ds in sorted(ctx.cat.decls.items()):
+        for d in ds:
+            if d.file != 'CythonFunction.c' or d.kind != 'func' or not d.body:
+                continue
+            body = strip_c_comments(d.body)
+            for m in re.finditer(r'\bself\s*=\s*args\s*\[\s*0\s*\]\s*;', body):
+                # the enclosing branch: up to the next `break;` / closing brace
+                seg = body[m.end():]
+                end = re.search(r'\bbreak\s*;|\}', seg)
+                seg = seg[:end.start()] if end else seg
+                key = 'CythonFunction.c:%s:self=args[0]' % name
+                n += 1
+                r.inst(key, sample=key)
+                adv = re.search(r'\bargs\s*\+=\s*1\b|\bargs\s*\+\+|\+\+\s*args\b|\bargs\s*=\s*args\s*\+\s*1\b', seg)
+                dec = re.search(r'\bnargs\s*-=\s*1\b|\bnargs\s*--|--\s*nargs\b|\bnargs\s*=\s*nargs\s*-\s*1\b', seg)
+                if not (adv and dec):
+                    r.violate(key, rel, d.line, '%s takes self from args[0] but does not %s in that branch: %s' % (
+                        name, ' and '.join(x for x, ok in (('advance args', adv), ('decrement nargs', dec)) if not ok),
+                        'the method receives self again as its first positional argument' if not adv else 'the argument count still includes self (wrong arity errors / reads one past the vector)'))
+            for m in re.finditer(r'\bself\s*=\s*PyTuple_Get(?:Item|_ITEM)\s*\(\s*(\w+)\s*,\s*0\s*\)', body):
+                key = 'CythonFunction.c:%s:self=tuple[0]' % name
+                n += 1
+                sl = re.findall(r'PyTuple_GetSlice\s*\(\s*%s\s*,\s*([^,]+),' % re.escape(m.group(1)), body)
+                r.inst(key, sample='%s: slices %s' % (key, sl))
+                if not sl or any(s.strip() != '1' for s in sl):
+                    r.violate(key, rel, d.line, '%s takes self from item 0 of the argument tuple but passes on %s: self is bound again as the first positional argument' % (
+                        name, ('PyTuple_GetSlice(%s, %s, ...)' % (m.group(1), sl[0].strip())) if sl else 'the whole tuple'))
+    if not n:
+        raise AnalysisError('CythonFunction.c: no call path extracts self from its arguments any more')
+    r.positive_control(True, 'structural pairing (no violation expected on a consistent tree)')
+    return r
+
+
+# ======================================================================================= C24-UNKNOWN / C24-KWCOUNT
+def _flag_truth(cond, env):
+    """truth of a guard condition over the flags in env (name -> 0/1), None when it mentions anything else"""
+    try:
+        e = cexpr.parse(blank_strings(cond))
+    except (cexpr.ParseError, ValueError):
+        return None
+    ids = {n[1] for n in cexpr.walk(e) if n[0] == 'id'}
+    calls = {n[1] for n in cexpr.walk(e) if n[0] == 'call'}
+    if not ids or not ids <= set(env) or calls - {'likely', 'unlikely'}:
+        return None
+    try:
+        return bool(cexpr.evaluate(e, dict(env), calls={'likely': lambda x: x, 'unlikely': lambda x: x}))
+    except Exception:
+        return None
+
+
+def unknown_exits(name, d):
+    """positions of the "unexpected keyword" error exits of a parser function: gotos to a label that formats the TypeError, calls of __Pyx_RejectUnknownKeyword"""
+    body = strip_c_comments(d.body)
+    labels = set()
+    for m in re.finditer(r'(?m)^\s*([A-Za-z_]\w*)\s*:\s*$', body):
+        tail = body[m.end():]
+        nxt = re.search(r'(?m)^\s*[A-Za-z_]\w*\s*:\s*$', tail)
+        blk = tail[:nxt.start()] if nxt else tail
+        if re.search(r'unexpected keyword', blk):
+            labels.add(m.group(1))
+    out = []
+    for m in re.finditer(r'\bgoto\s+(\w+)\s*;', body):
+        if m.group(1) in labels:
+            out.append((m.start(), 'goto %s' % m.group(1)))
+    for m in re.finditer(r'\b__Pyx_RejectUnknownKeyword\s*\(', body):
+        out.append((m.start(), '__Pyx_RejectUnknownKeyword(...)'))
+    return body, out
+
+
+def rule_unknown(ctx, floor=2):
+    from ..engine import cguard
+    r = Rule('C24-UNKNOWN', 'keyword parsers of FunctionArguments.c: the "unexpected keyword argument" exit of every parser that receives the flags is reachable exactly for '
+             '(no **kwargs dict, ignore_unknown_kwargs == 0) — truth table of the enclosing conditions over the complete domain {kwds2 NULL / set} x {flag 0 / 1}', floor)
+    funcs = _kw_functions(ctx)
+    rel = 'Cython/Utility/FunctionArguments.c'
+    n = 0
+    for name, d in sorted(funcs.items()):
+        pn = [_pname_c(p) for p in d.params]
+        flags = [p for p in pn if p in ('ignore_unknown_kwargs', 'kwds2')]
+        if 'ignore_unknown_kwargs' not in pn:
+            continue
+        body, exits = unknown_exits(name, d)
+        for pos, what in exits:
+            gs = cguard.guards(body, pos)
+            key = 'FunctionArguments.c:%s:%s' % (name, what)
+            n += 1
+            table = {}
+            for k in ((0, 1) if 'kwds2' in pn else (0,)):
+                for i in (0, 1):
+                    env = {'ignore_unknown_kwargs': i, 'kwds2': k, 'NULL': 0}
+                    reach = True
+                    for cond, pol in gs:
+                        t = _flag_truth(cond, env)
+                        if t is not None and t != pol:
+                            reach = False
+                    table[(k, i)] = reach
+            r.inst(key, sample='%s: reachable for (kwds2, ignore) in %s' % (key, sorted(k for k, v in table.items() if v)))
+            wrong = sorted(k for k, v in table.items() if v != (k == (0, 0)))
+            if wrong:
+                r.violate(key, rel, d.line, '%s: the unexpected-keyword error (%s) is %s: a signature %s' % (
+                    name, what, '; '.join('%s for kwds2 %s, ignore_unknown_kwargs=%d' % ('reachable' if table[k] else 'NOT reachable', 'set' if k[0] else 'NULL', k[1]) for k in wrong),
+                    'with an unread **kwargs rejects unknown keywords' if any(table[k] for k in wrong) else 'without **kwargs silently accepts unknown keywords'))
+    if not n:
+        raise AnalysisError('FunctionArguments.c: no unexpected-keyword exit found in the parsers that take ignore_unknown_kwargs')
+    ctl = '{ if (kwds2) { a(); } else if (ignore_unknown_kwargs) { goto invalid_keyword; } }'
+    gs = cguard.guards(ctl, ctl.index('goto'))
+    r.positive_control(len(gs) == 2 and not all(_flag_truth(c, {'ignore_unknown_kwargs': 0, 'kwds2': 0, 'NULL': 0}) == p for c, p in gs), 'inverted flag makes the exit unreachable for (NULL, 0)')
+    return r
+
+
+def rule_kwcount(ctx, floor=2):
+    """def-use of the two counts passed to __Pyx_ParseKeywords"""
+    ix = ctx.index
+    r = Rule('C24-KWCOUNT', 'DefNodeWrapper: the argument passed for `num_kwargs` of __Pyx_ParseKeywords is the keyword count variable, the argument for `num_pos_args` is 0 or a C variable the '
+             'same function defines from the positional count nargs', floor)
+    decl = [d for d in ctx.cat.decls.get('__Pyx_ParseKeywords', []) if d.kind == 'func']
+    if not decl:
+        raise AnalysisError('__Pyx_ParseKeywords is not defined')
+    pn = [_pname_c(p) for p in decl[0].params]
+    if 'num_pos_args' not in pn or 'num_kwargs' not in pn:
+        raise AnalysisError('__Pyx_ParseKeywords no longer has the parameters num_pos_args / num_kwargs')
+    ipos, ikw = pn.index('num_pos_args'), pn.index('num_kwargs')
+    c = ix.cls('Nodes', 'DefNodeWrapper')
+    n = 0
+    for fname, fn in (c.methods.items() if c else ()):
+        for node, name, args, argph in iface.emitted_calls_fn(fn):
+            if name != '__Pyx_ParseKeywords' or args is None or len(args) != len(pn):
+                continue
+            env = iface.local_env(fn)
+            # C variables this function declares from nargs: `const Py_ssize_t X = ... <nargs> ...` / `... <Y> ...` with Y such a variable
+            decls = {}
+            emitted = [a for cl in walk_no_nested(fn) if isinstance(cl, ast.Call) for a in cl.args[:1]]
+            for x in emitted:
+                t = iface.str_template(x) if isinstance(x, (ast.JoinedStr, ast.BinOp, ast.Constant)) else None
+                if t is None:
+                    continue
+                text, ph = t
+                for m in re.finditer(r'\bPy_ssize_t\s+(\w+)\s*=([^;]*);', text):
+                    k0 = text[:m.start(2)].count(PH)
+                    phs = ph[k0:k0 + m.group(2).count(PH)]
+                    decls.setdefault(m.group(1), []).append((m.group(2), phs))
+
+            def from_nargs(cid, depth=0):
+                if depth > 4 or cid not in decls:
+                    return False
+                for init, phs in decls[cid]:
+                    ok = any(isinstance(p, ast.Attribute) and p.attr == 'nargs_cname' for p in phs) or any(from_nargs(w, depth + 1) for w in re.findall(r'[A-Za-z_]\w*', init) if w != cid)
+                    if not ok:
+                        return False
+                return True
+            for what, i in (('num_kwargs', ikw), ('num_pos_args', ipos)):
+                key = 'Nodes.DefNodeWrapper.%s:__Pyx_ParseKeywords:%s' % (fname, what)
+                n += 1
+                p = argph[i][0] if argph[i] else None
+                r.inst(key, sample='%s <- %s' % (key, ast.unparse(p) if isinstance(p, ast.AST) else args[i]))
+                if what == 'num_kwargs':
+                    if not (isinstance(p, ast.Attribute) and p.attr == 'kwds_len_cname'):
+                        r.violate(key, c.module.rel, node.lineno, '%s passes `%s` as num_kwargs of __Pyx_ParseKeywords, not the keyword count Naming.kwds_len_cname: the parser stops extracting / '
+                                  'reports unknown keywords by the wrong count' % (fname, ast.unparse(p) if isinstance(p, ast.AST) else args[i]))
+                    continue
+                vals = iface.const_strs(p, env) if isinstance(p, ast.AST) else {args[i].strip()}
+                if vals is None:
+                    r.info('%s: the num_pos_args argument `%s` is not a finite set of C expressions; not checked' % (key, ast.unparse(p)))
+                    continue
+                bad = sorted(v for v in vals if not (v.strip() in ('0',) or from_nargs(v.strip())))
+                if bad:
+                    r.violate(key, c.module.rel, node.lineno, '%s passes `%s` as num_pos_args of __Pyx_ParseKeywords, which this function does not derive from the positional count (nargs): '
+                              'the parser starts its keyword search at the wrong table entry / misses duplicates of positional arguments' % (fname, ', '.join(bad)))
+    if not n:
+        raise AnalysisError('DefNodeWrapper no longer emits __Pyx_ParseKeywords(')
+    r.positive_control(True, 'def-use clause (no violation expected on a consistent tree)')
+    return r
